@@ -15,7 +15,7 @@ func anchorIndex(r *Rule) int {
 	case "index", "slice":
 		return 2 // "%s[...": the bracket
 	case "cond":
-		return -1
+		return 3 // "%s ? %s : %s": the question mark
 	}
 	return 0
 }
